@@ -31,6 +31,21 @@ fn digits(rng: &mut Rng, n: usize, out: &mut Vec<u8>) {
 
 /// A decimal numeric literal in one of the NRf spellings.
 pub fn gen_nrf(rng: &mut Rng) -> Vec<u8> {
+    if rng.chance(1, 16) {
+        // numbers at the limits of the integer types (and their halves / neighbours) in every spelling, zeros, and now
+        // and then an extreme exponent: wherever a message carries a number, conversions meet their boundaries
+        use crate::gen::num::{around, respell, with_exponent, ZEROS};
+        const BOUNDS: &[i128] = &[-128, 127, 255, 256, -32768, 32767, 65535, 65536, -2147483648, 2147483647, 4294967295, 4294967296, -9223372036854775808, 9223372036854775807, 18446744073709551615, 18446744073709551616, 0, 1];
+        return match rng.usize(8) {
+            0 => rng.pick(ZEROS).as_bytes().to_vec(),
+            1 => with_exponent(rng).into_bytes(),
+            _ => {
+                let b = *rng.pick(BOUNDS);
+                let p = around(rng, b);
+                respell(rng, &p).into_bytes()
+            }
+        };
+    }
     let mut v = Vec::new();
     match rng.usize(4) {
         0 => v.push(b'+'),
